@@ -167,6 +167,412 @@ func (o *out) c18ByteVar(dir, goName, coqName string) {
 	o.f("Definition %s : list Z := [%s]. (* %s.%s *)\n", coqName, strings.Join(parts, "; "), dir, goName)
 }
 
+
+// c18KeyOfLit translates the value of `key: value` in the first composite literal of the function that has such a key.
+func (o *out) c18KeyOfLit(fs funcSpec, key string) {
+	p, fd := findFunc(fs.dir, fs.recv, fs.name)
+	if fd == nil {
+		o.brokenDef(fs.coqName, "function "+fs.dir+":"+fs.recv+"."+fs.name+" not found")
+		return
+	}
+	var found ast.Expr
+	ast.Inspect(fd.Body, func(n ast.Node) bool {
+		if found != nil {
+			return false
+		}
+		if kv, ok := n.(*ast.KeyValueExpr); ok && printNode(p.fset, kv.Key) == key {
+			if _, isLit := kv.Value.(*ast.CompositeLit); !isLit {
+				found = kv.Value
+				return false
+			}
+		}
+		return true
+	})
+	if found == nil {
+		o.brokenDef(fs.coqName, "no `"+key+": ...` in a composite literal of "+fs.name)
+		return
+	}
+	t := o.newTr(p, fs)
+	c := t.expr(found)
+	if t.err != nil {
+		o.brokenDef(fs.coqName, t.err.Error())
+		return
+	}
+	o.f("Definition %s %s : %s :=\n  %s.\n(* from %s:%s.%s : %s: %s *)\n", fs.coqName, fs.params, fs.retType, c, fs.dir, fs.recv, fs.name, key,
+		strings.ReplaceAll(printNode(p.fset, found), "*)", "* )"))
+}
+
+// c18MakeLen translates the length argument of `lhs := make(T, n)`.
+func (o *out) c18MakeLen(fs funcSpec, lhs string) {
+	p, fd := findFunc(fs.dir, fs.recv, fs.name)
+	if fd == nil {
+		o.brokenDef(fs.coqName, "function "+fs.dir+":"+fs.recv+"."+fs.name+" not found")
+		return
+	}
+	var found ast.Expr
+	ast.Inspect(fd.Body, func(n ast.Node) bool {
+		if as, ok := n.(*ast.AssignStmt); ok && found == nil && len(as.Lhs) == 1 && len(as.Rhs) == 1 && printNode(p.fset, as.Lhs[0]) == lhs {
+			if ce, ok := as.Rhs[0].(*ast.CallExpr); ok && printNode(p.fset, ce.Fun) == "make" && len(ce.Args) >= 2 {
+				found = ce.Args[1]
+			}
+		}
+		return found == nil
+	})
+	if found == nil {
+		o.brokenDef(fs.coqName, "no `"+lhs+" := make(T, n)` in "+fs.name)
+		return
+	}
+	t := o.newTr(p, fs)
+	c := t.expr(found)
+	if t.err != nil {
+		o.brokenDef(fs.coqName, t.err.Error())
+		return
+	}
+	o.f("Definition %s %s : %s :=\n  %s.\n(* from %s:%s.%s : %s := make(_, %s) *)\n", fs.coqName, fs.params, fs.retType, c, fs.dir, fs.recv, fs.name, lhs, printNode(p.fset, found))
+}
+
+func c18IsErrNotNil(p *pkgInfo, e ast.Expr) bool {
+	return strings.Join(strings.Fields(printNode(p.fset, e)), "") == "err!=nil"
+}
+
+func c18ReturnsErr(p *pkgInfo, b *ast.BlockStmt) bool {
+	if b == nil || len(b.List) != 1 {
+		return false
+	}
+	rs, ok := b.List[0].(*ast.ReturnStmt)
+	if !ok || len(rs.Results) == 0 {
+		return false
+	}
+	return printNode(p.fset, rs.Results[len(rs.Results)-1]) == "err"
+}
+
+// c18ErrReturned: for the nth call (source order, top-level statements and if/else blocks of the function) whose callee ends in
+// `callee`: is its error handed to the caller?  Recognised shapes: `if err := call; err != nil { return ..., err }`,
+// `x, err := call` directly followed by `if err != nil { return ..., err }`, and `return call`.
+func (o *out) c18ErrReturned(dir, recv, name, callee string, nth int, coqName string) {
+	p, fd := findFunc(dir, recv, name)
+	if fd == nil {
+		o.brokenDef(coqName, "function "+dir+":"+recv+"."+name+" not found")
+		return
+	}
+	isCall := func(e ast.Expr) bool {
+		ce, ok := e.(*ast.CallExpr)
+		if !ok {
+			return false
+		}
+		c := printNode(p.fset, ce.Fun)
+		return c == callee || strings.HasSuffix(c, "."+callee)
+	}
+	k := 0
+	found, propagated := false, false
+	var walk func(list []ast.Stmt)
+	walk = func(list []ast.Stmt) {
+		for i, s := range list {
+			if found {
+				return
+			}
+			hit, prop := false, false
+			switch x := s.(type) {
+			case *ast.IfStmt:
+				if as, ok := x.Init.(*ast.AssignStmt); ok && len(as.Rhs) == 1 && isCall(as.Rhs[0]) {
+					hit = true
+					prop = c18IsErrNotNil(p, x.Cond) && c18ReturnsErr(p, x.Body) && printNode(p.fset, as.Lhs[len(as.Lhs)-1]) == "err"
+				}
+			case *ast.AssignStmt:
+				if len(x.Rhs) == 1 && isCall(x.Rhs[0]) {
+					hit = true
+					if i+1 < len(list) {
+						if is, ok := list[i+1].(*ast.IfStmt); ok && is.Init == nil {
+							prop = c18IsErrNotNil(p, is.Cond) && c18ReturnsErr(p, is.Body) && printNode(p.fset, x.Lhs[len(x.Lhs)-1]) == "err"
+						}
+					}
+				}
+			case *ast.ReturnStmt:
+				if len(x.Results) == 1 && isCall(x.Results[0]) {
+					hit, prop = true, true
+				}
+			case *ast.ExprStmt:
+				if isCall(x.X) {
+					hit = true
+				}
+			}
+			if hit {
+				if k == nth {
+					found, propagated = true, prop
+					return
+				}
+				k++
+			}
+			if is, ok := s.(*ast.IfStmt); ok {
+				walk(is.Body.List)
+				if eb, ok := is.Else.(*ast.BlockStmt); ok {
+					walk(eb.List)
+				}
+			}
+		}
+	}
+	walk(fd.Body.List)
+	if !found {
+		o.brokenDef(coqName, fmt.Sprintf("call #%d of %s not found as a statement of %s", nth, callee, name))
+		return
+	}
+	o.f("Definition %s : bool := %v. (* %s:%s.%s : error of %s call #%d is returned to the caller *)\n", coqName, propagated, dir, recv, name, callee, nth)
+}
+
+// c18IfElse: the if/else statement of a function whose condition contains marker.
+func c18IfElse(dir, recv, name, marker string) (*pkgInfo, *ast.IfStmt) {
+	p, fd := findFunc(dir, recv, name)
+	if fd == nil {
+		return p, nil
+	}
+	var found *ast.IfStmt
+	ast.Inspect(fd.Body, func(n ast.Node) bool {
+		if is, ok := n.(*ast.IfStmt); ok && found == nil && strings.Contains(printNode(p.fset, is.Cond), marker) {
+			if _, ok := is.Else.(*ast.BlockStmt); ok {
+				found = is
+			}
+		}
+		return found == nil
+	})
+	return p, found
+}
+
+// c18FreeTables: which allocation table DeleteFile hands to freeSectors on the short / long branch (0 = r.SAT, 1 = r.SSAT),
+// and whether the chain start is item.NextSector.
+func (o *out) c18FreeTables() {
+	const d = "lib/comdoc"
+	p, is := c18IfElse(d, "ComDoc", "DeleteFile", "item.StreamSize")
+	if is == nil {
+		o.brokenDef("delete_free_table_short", "no if/else on item.StreamSize in DeleteFile")
+		return
+	}
+	arg := func(list []ast.Stmt) (int, bool, bool) {
+		if len(list) != 1 {
+			return 0, false, false
+		}
+		es, ok := list[0].(*ast.ExprStmt)
+		if !ok {
+			return 0, false, false
+		}
+		ce, ok := es.X.(*ast.CallExpr)
+		if !ok || printNode(p.fset, ce.Fun) != "freeSectors" || len(ce.Args) != 2 {
+			return 0, false, false
+		}
+		tbl := map[string]int{"r.SAT": 0, "r.SSAT": 1}
+		v, ok := tbl[printNode(p.fset, ce.Args[0])]
+		return v, ok, printNode(p.fset, ce.Args[1]) == "item.NextSector"
+	}
+	a, ok1, n1 := arg(is.Body.List)
+	b, ok2, n2 := arg(is.Else.(*ast.BlockStmt).List)
+	if !ok1 || !ok2 {
+		o.brokenDef("delete_free_table_short", "branches of the item.StreamSize test in DeleteFile are not single freeSectors(table, start) calls")
+		return
+	}
+	o.f("Definition delete_free_table_short : Z := %d. (* lib/comdoc:ComDoc.DeleteFile : table freed when the size test holds; 0 = r.SAT, 1 = r.SSAT *)\n", a)
+	o.f("Definition delete_free_table_long : Z := %d. (* lib/comdoc:ComDoc.DeleteFile : table freed otherwise *)\n", b)
+	o.f("Definition delete_free_from_next : bool := %v. (* both calls start at item.NextSector *)\n", n1 && n2)
+}
+
+// c18RebuildLinks: how rebuildTree copies the red-black tree into the directory entries.
+func (o *out) c18RebuildLinks() {
+	const d = "lib/comdoc"
+	lastAssign := func(p *pkgInfo, list []ast.Stmt) (string, ast.Expr) {
+		if len(list) == 0 {
+			return "", nil
+		}
+		as, ok := list[len(list)-1].(*ast.AssignStmt)
+		if !ok || len(as.Lhs) != 1 || len(as.Rhs) != 1 {
+			return "", nil
+		}
+		return printNode(p.fset, as.Lhs[0]), as.Rhs[0]
+	}
+	p, is := c18IfElse(d, "ComDoc", "rebuildTree", "n.Red")
+	if is == nil {
+		o.brokenDef("rebuild_color_if_red", "no if/else on n.Red in rebuildTree")
+	} else {
+		l1, r1 := lastAssign(p, is.Body.List)
+		l2, r2 := lastAssign(p, is.Else.(*ast.BlockStmt).List)
+		v1, e1 := evalConst(d, r1, 0)
+		v2, e2 := evalConst(d, r2, 0)
+		if l1 != "e.Color" || l2 != "e.Color" || r1 == nil || r2 == nil || e1 != nil || e2 != nil {
+			o.brokenDef("rebuild_color_if_red", "branches of the n.Red test do not assign constants to e.Color")
+		} else {
+			o.f("Definition rebuild_color_if_red : Z := %d. (* lib/comdoc:ComDoc.rebuildTree : if n.Red { e.Color = %s } *)\n", v1.i, printNode(p.fset, r1))
+			o.f("Definition rebuild_color_if_black : Z := %d. (* else { e.Color = %s } *)\n", v2.i, printNode(p.fset, r2))
+		}
+	}
+	for k := 0; k < 2; k++ {
+		nm := fmt.Sprintf("rebuild_child%d_field", k)
+		p, is := c18IfElse(d, "ComDoc", "rebuildTree", fmt.Sprintf("n.Children[%d]", k))
+		if is == nil {
+			o.brokenDef(nm, fmt.Sprintf("no if/else on n.Children[%d] in rebuildTree", k))
+			continue
+		}
+		cond := strings.Join(strings.Fields(printNode(p.fset, is.Cond)), "")
+		l1, r1 := lastAssign(p, is.Body.List)
+		l2, r2 := lastAssign(p, is.Else.(*ast.BlockStmt).List)
+		fields := map[string]int{"e.LeftChild": 0, "e.RightChild": 1}
+		f1, ok1 := fields[l1]
+		_, ok2 := fields[l2]
+		var none cval
+		var err error
+		if r2 != nil {
+			none, err = evalConst(d, r2, 0)
+		}
+		// the then-branch must store the Index of the item of that same child
+		src := ""
+		if len(is.Body.List) == 2 {
+			if as, ok := is.Body.List[0].(*ast.AssignStmt); ok && len(as.Lhs) == 1 && len(as.Rhs) == 1 {
+				src = strings.Join(strings.Fields(printNode(p.fset, as.Rhs[0])), "")
+				if r1 != nil && strings.Join(strings.Fields(printNode(p.fset, r1)), "") != "int32("+printNode(p.fset, as.Lhs[0])+".Index)" {
+					src = ""
+				}
+			}
+		}
+		if cond != fmt.Sprintf("n.Children[%d]!=nil", k) || !ok1 || !ok2 || l1 != l2 || r2 == nil || err != nil || src != fmt.Sprintf("n.Children[%d].Item.(*DirEnt)", k) {
+			o.brokenDef(nm, fmt.Sprintf("the n.Children[%d] test in rebuildTree does not have the shape `if c != nil { x := c.Item.(*DirEnt); e.F = int32(x.Index) } else { e.F = const }`", k))
+			continue
+		}
+		o.f("Definition %s : Z := %d. (* lib/comdoc:ComDoc.rebuildTree : Index of n.Children[%d] is stored in %s ; 0 = LeftChild, 1 = RightChild *)\n", nm, f1, k, l1)
+		o.f("Definition rebuild_child%d_none : Z := %d. (* else %s = %s *)\n", k, none.i, l2, printNode(p.fset, r2))
+	}
+}
+
+// c18InsertPlan: InsertMSISignature as data.  A step is (op, name, payload): op 0 = AddFile, 1 = DeleteFile; name 0 = msiDigitalSignature,
+// 1 = msiDigitalSignatureEx; payload 0 = pkcs, 1 = exsig, 2 = none.
+func (o *out) c18InsertPlan() {
+	const a = "lib/authenticode"
+	p, fd := findFunc(a, "", "InsertMSISignature")
+	if fd == nil {
+		o.brokenDef("insert_plan_tail", "function lib/authenticode:InsertMSISignature not found")
+		return
+	}
+	okAll := true
+	step := func(e ast.Expr) string {
+		ce, ok := e.(*ast.CallExpr)
+		if !ok {
+			okAll = false
+			return ""
+		}
+		ops := map[string]int{"cdf.AddFile": 0, "cdf.DeleteFile": 1}
+		names := map[string]int{"msiDigitalSignature": 0, "msiDigitalSignatureEx": 1}
+		pay := map[string]int{"pkcs": 0, "exsig": 1}
+		op, ok1 := ops[printNode(p.fset, ce.Fun)]
+		if !ok1 || len(ce.Args) < 1 {
+			okAll = false
+			return ""
+		}
+		nm, ok2 := names[printNode(p.fset, ce.Args[0])]
+		pl := 2
+		if op == 0 {
+			var ok3 bool
+			if len(ce.Args) != 2 {
+				okAll = false
+				return ""
+			}
+			pl, ok3 = pay[printNode(p.fset, ce.Args[1])]
+			okAll = okAll && ok3
+		}
+		okAll = okAll && ok2
+		return fmt.Sprintf("(%d, %d, %d)", op, nm, pl)
+	}
+	// a block of `if err := call; err != nil { return err }` statements
+	block := func(list []ast.Stmt) []string {
+		var out []string
+		for _, s := range list {
+			is, ok := s.(*ast.IfStmt)
+			if !ok {
+				okAll = false
+				continue
+			}
+			as, ok := is.Init.(*ast.AssignStmt)
+			if !ok || len(as.Rhs) != 1 || !c18IsErrNotNil(p, is.Cond) || !c18ReturnsErr(p, is.Body) || is.Else != nil {
+				okAll = false
+				continue
+			}
+			out = append(out, step(as.Rhs[0]))
+		}
+		return out
+	}
+	// optional pre-check in front of the plan: `files, err := cdf.ListDir(nil); if err != nil { return err };
+	// for _, item := range files { if <refusal test> { return errors.New(...) } }`
+	body := fd.Body.List
+	precheck := false
+	if len(body) == 5 {
+		shape := "InsertMSISignature: the statements in front of the exsig test are not `files, err := cdf.ListDir(nil); if err != nil { return err }; for _, item := range files { if c { return errors.New(..) } }`"
+		as, okA := body[0].(*ast.AssignStmt)
+		ie, okB := body[1].(*ast.IfStmt)
+		rg, okC := body[2].(*ast.RangeStmt)
+		if !okA || !okB || !okC || strings.Join(strings.Fields(printNode(p.fset, as)), " ") != "files, err := cdf.ListDir(nil)" ||
+			ie.Init != nil || !c18IsErrNotNil(p, ie.Cond) || !c18ReturnsErr(p, ie.Body) || ie.Else != nil ||
+			printNode(p.fset, rg.X) != "files" || rg.Value == nil || printNode(p.fset, rg.Value) != "item" || len(rg.Body.List) != 1 {
+			o.brokenDef("insert_plan_tail", shape)
+			return
+		}
+		ri, okD := rg.Body.List[0].(*ast.IfStmt)
+		if !okD || ri.Init != nil || ri.Else != nil || len(ri.Body.List) != 1 {
+			o.brokenDef("insert_plan_tail", shape)
+			return
+		}
+		rr, okE := ri.Body.List[0].(*ast.ReturnStmt)
+		if !okE || len(rr.Results) != 1 || !strings.HasPrefix(printNode(p.fset, rr.Results[0]), "errors.New(") {
+			o.brokenDef("insert_plan_tail", shape)
+			return
+		}
+		leaves := map[string]string{"item.Type": "typ", "isMsiSignatureName(item.Name())": "is_sig_name"}
+		for _, cn := range []string{"DirStream", "DirStorage", "DirRoot", "DirEmpty"} {
+			if ce, _, si, _ := findConstExpr("lib/comdoc", cn); ce != nil {
+				if v, err := evalConst("lib/comdoc", ce, si); err == nil {
+					leaves["comdoc."+cn] = fmt.Sprintf("%d", v.i)
+				}
+			}
+		}
+		t := o.newTr(p, funcSpec{dir: a, leaves: leaves, types: map[string]string{"isMsiSignatureName(item.Name())": "bool"}})
+		c := t.expr(ri.Cond)
+		if t.err != nil {
+			o.brokenDef("insert_refuses", t.err.Error())
+			return
+		}
+		o.f("Definition insert_refuses (typ : Z) (is_sig_name : bool) : bool :=\n  %s.\n(* from lib/authenticode:.InsertMSISignature : for _, item := range cdf.ListDir(nil) { if %s { return errors.New(..) } } *)\n", c, printNode(p.fset, ri.Cond))
+		precheck = true
+		body = body[3:]
+	}
+	if len(body) != 2 {
+		o.brokenDef("insert_plan_tail", "InsertMSISignature is no longer `[pre-check;] if len(exsig) ... { } else { }; return cdf.AddFile(...)`")
+		return
+	}
+	if !precheck {
+		o.f("Definition insert_refuses (typ : Z) (is_sig_name : bool) : bool := false. (* lib/authenticode:.InsertMSISignature has no pre-check *)\n")
+	}
+	o.f("Definition insert_precheck : bool := %v. (* lib/authenticode:.InsertMSISignature lists the root storage and refuses before any AddFile / DeleteFile *)\n", precheck)
+	is, ok1 := body[0].(*ast.IfStmt)
+	rs, ok2 := body[1].(*ast.ReturnStmt)
+	if !ok1 || !ok2 || is.Init != nil || len(rs.Results) != 1 {
+		o.brokenDef("insert_plan_tail", "InsertMSISignature is no longer `if len(exsig) ... { } else { }; return cdf.AddFile(...)`")
+		return
+	}
+	eb, ok := is.Else.(*ast.BlockStmt)
+	if !ok {
+		o.brokenDef("insert_plan_tail", "InsertMSISignature: the exsig test has no else block")
+		return
+	}
+	thenP, elseP, tail := block(is.Body.List), block(eb.List), step(rs.Results[0])
+	if !okAll {
+		o.brokenDef("insert_plan_tail", "InsertMSISignature contains a statement that is not an error-checked AddFile/DeleteFile call on the two signature names")
+		return
+	}
+	t := o.newTr(p, funcSpec{dir: a, leaves: map[string]string{"len(exsig)": "len_exsig"}})
+	c := t.expr(is.Cond)
+	if t.err != nil {
+		o.brokenDef("insert_has_exsig", t.err.Error())
+		return
+	}
+	o.f("Definition insert_has_exsig (len_exsig : Z) : bool :=\n  %s.\n(* from lib/authenticode:.InsertMSISignature : if %s *)\n", c, printNode(p.fset, is.Cond))
+	o.f("Definition insert_plan_then : list (Z * Z * Z) := [%s].\nDefinition insert_plan_else : list (Z * Z * Z) := [%s].\nDefinition insert_plan_tail : list (Z * Z * Z) := [%s].\n",
+		strings.Join(thenP, "; "), strings.Join(elseP, "; "), tail)
+	o.f("(* lib/authenticode:.InsertMSISignature as (op, name, payload): op 0 AddFile 1 DeleteFile; name 0 msiDigitalSignature 1 msiDigitalSignatureEx; payload 0 pkcs 1 exsig 2 none; every error is returned *)\n")
+}
+
 func init() {
 	generators["C18_gen"] = func(o *out) {
 		const d = "lib/comdoc"
@@ -248,6 +654,79 @@ func init() {
 		o.constString(a, "msiTarExMeta", "msi_tar_exmeta")
 		o.constString(a, "msiTarStorageUID", "msi_tar_storage_uid")
 		o.callOrder(a, "", "InsertMSISignature", "insert_sig_order", []string{"AddFile", "DeleteFile"})
+
+		// ---- directory entries of the root storage: DeleteFile / AddFile / newDirEnt / appendDirEnt / rebuildTree / InsertMSISignature
+		dl := map[string]string{"item": "item", "probe": "probe", "item.name": "item_name", "name": "name", "len(runes)": "n_runes",
+			"len(RawDirEnt{}.NameRunes)": "cap", "item.Type": "typ"}
+		dt := map[string]string{"item.name": "str", "name": "str", "lessDirEnt()": "bool"}
+		dc := map[string]string{"lessDirEnt": "less"}
+		o.condOf(funcSpec{dir: d, recv: "ComDoc", name: "DeleteFile", coqName: "delete_name_too_long", params: "(n_runes cap : Z)", retType: "bool", leaves: dl}, "if:len(runes)")
+		o.c18KeyOfLit(funcSpec{dir: d, recv: "ComDoc", name: "DeleteFile", coqName: "delete_probe_namelen", params: "(n_runes : Z)", retType: "Z", leaves: dl}, "NameLength")
+		o.condOf(funcSpec{dir: d, recv: "ComDoc", name: "DeleteFile", coqName: "delete_keeps", params: "{X : Type} (less : X -> X -> bool) (item probe : X) (item_name name : list Z)",
+			retType: "bool", leaves: dl, types: dt, calls: dc}, "if:item", 0)
+		o.condOf(funcSpec{dir: d, recv: "ComDoc", name: "DeleteFile", coqName: "delete_refuses", params: "(typ : Z)", retType: "bool", leaves: dl}, "if:item.Type")
+		o.hasStmt(d, "ComDoc", "DeleteFile", "runes := append(utf16.Encode([]rune(name)), 0)", "delete_probe_terminated")
+		o.hasStmt(d, "ComDoc", "DeleteFile", "copy(probe.NameRunes[:], runes)", "delete_probe_copied")
+		o.hasStmt(d, "ComDoc", "DeleteFile", "keepFiles = append(keepFiles, index)", "delete_keep_appends")
+		o.hasStmt(d, "ComDoc", "DeleteFile", "*item = DirEnt{}", "delete_blanks_entry")
+		o.hasStmt(d, "ComDoc", "DeleteFile", "r.rootFiles = keepFiles", "delete_commits_keep")
+		o.hasStmt(d, "ComDoc", "DeleteFile", "r.changed = true", "delete_marks_changed")
+		o.hasStmt(d, "ComDoc", "AddFile", "r.changed = true", "addfile_marks_changed")
+		o.condOf(funcSpec{dir: d, recv: "ComDoc", name: "Close", coqName: "close_skips", params: "(changed : bool)", retType: "bool",
+			leaves: map[string]string{"r.changed": "changed"}, types: map[string]string{"r.changed": "bool"}}, "if:r.changed")
+		o.c18FreeTables()
+		o.condOf(funcSpec{dir: d, name: "freeSectors", coqName: "free_break", params: "(sector n_sat : Z)", retType: "bool",
+			leaves: map[string]string{"sector": "sector", "int(sector)": "sector", "len(sat)": "n_sat"}}, "if:len(sat)")
+		o.c18ErrReturned(d, "ComDoc", "AddFile", "DeleteFile", 0, "addfile_delete_err_returned")
+		o.c18ErrReturned(d, "ComDoc", "AddFile", "addStream", 0, "addfile_stream_err_returned")
+		o.c18ErrReturned(d, "ComDoc", "AddFile", "newDirEnt", 0, "addfile_dirent_err_returned")
+		o.hasStmt(d, "ComDoc", "AddFile", "r.rootFiles = append(r.rootFiles, dirent.Index)", "addfile_appends_root")
+		nd := map[string]string{"len(runes)": "n_runes"}
+		o.condOf(funcSpec{dir: d, recv: "ComDoc", name: "newDirEnt", coqName: "newde_too_long", params: "(n_runes : Z)", retType: "bool", leaves: nd}, "if:len(runes)")
+		o.hasStmt(d, "ComDoc", "newDirEnt", "runes = append(runes, 0)", "newde_terminated")
+		o.hasStmt(d, "ComDoc", "newDirEnt", "copy(dirent.NameRunes[:], runes)", "newde_copied")
+		o.c18KeyOfLit(funcSpec{dir: d, recv: "ComDoc", name: "newDirEnt", coqName: "newde_namelen", params: "(n_runes : Z)", retType: "Z", leaves: nd}, "NameLength")
+		for _, kv := range [][2]string{{"Type", "newde_type"}, {"LeftChild", "newde_left"}, {"RightChild", "newde_right"}, {"StorageRoot", "newde_child"}} {
+			o.c18KeyOfLit(funcSpec{dir: d, recv: "ComDoc", name: "newDirEnt", coqName: kv[1], params: "", retType: "Z", leaves: nd}, kv[0])
+		}
+		al := map[string]string{"j.Type": "typ", "index": "index", "r.SectorSize": "ss"}
+		o.condOf(funcSpec{dir: d, recv: "ComDoc", name: "appendDirEnt", coqName: "append_slot_free", params: "(typ : Z)", retType: "bool", leaves: al}, "if:j.Type")
+		o.condOf(funcSpec{dir: d, recv: "ComDoc", name: "appendDirEnt", coqName: "append_extends", params: "(index : Z)", retType: "bool", leaves: al}, "if:index")
+		o.c18MakeLen(funcSpec{dir: d, recv: "ComDoc", name: "appendDirEnt", coqName: "append_grow", params: "(ss : Z)", retType: "Z", leaves: al}, "newDirs")
+		o.hasStmt(d, "ComDoc", "writeDirStream", "r.rebuildTree(r.rootStorage, r.rootFiles)", "wds_rebuilds_root")
+		o.hasStmt(d, "ComDoc", "rebuildTree", "tree := redblack.New(lessDirEnt)", "rebuild_by_less_dirent")
+		o.hasStmt(d, "ComDoc", "rebuildTree", "tree.Insert(&r.Files[i])", "rebuild_inserts_entries")
+		o.hasStmt(d, "ComDoc", "rebuildTree", "r.Files[parent].StorageRoot = int32(e.Index)", "rebuild_sets_storage_root")
+		o.c18RebuildLinks()
+		o.condOf(funcSpec{dir: rb, recv: "Node", name: "insert", coqName: "rb_descend_right", params: "{X : Type} (lt : X -> X -> bool) (x a : X)", retType: "bool",
+			leaves: map[string]string{"n.Item": "x", "a.Item": "a"}, calls: map[string]string{"n.Less": "lt"}}, "if:n.Less")
+		o.c18InsertPlan()
+		o.c18LastReturn(funcSpec{dir: a, name: "isMsiSignatureName", coqName: "is_sig_name_def", params: "{X : Type} (same : X -> X -> bool) (name sig sigex : X)", retType: "bool",
+			leaves: map[string]string{"name": "name", "msiDigitalSignature": "sig", "msiDigitalSignatureEx": "sigex"}, calls: map[string]string{"comdoc.SameName": "same"}})
+		sl2 := map[string]string{"len(ra)": "la", "len(rb)": "lb", "upperUnit(ra[k])": "a", "upperUnit(rb[k])": "b"}
+		o.condOf(funcSpec{dir: d, name: "SameName", coqName: "same_len_differs", params: "(la lb : Z)", retType: "bool", leaves: sl2}, "if:len(ra)")
+		o.c18ReturnOfIf(funcSpec{dir: d, name: "SameName", coqName: "same_len_ret", params: "", retType: "bool", leaves: sl2}, 0)
+		o.condOf(funcSpec{dir: d, name: "SameName", coqName: "same_unit_differs", params: "(a b : Z)", retType: "bool", leaves: sl2}, "if:upperUnit")
+		o.c18ReturnOfIf(funcSpec{dir: d, name: "SameName", coqName: "same_unit_ret", params: "", retType: "bool", leaves: sl2}, 1)
+		o.c18LastReturn(funcSpec{dir: d, name: "SameName", coqName: "same_all_ret", params: "", retType: "bool", leaves: sl2})
+		fingerprint(d, "", "SameName")
+		ld := map[string]string{"parent.StorageRoot": "child", "index": "index", "int(index)": "index", "len(r.Files)": "n_files", "len(files)": "n",
+			"item.LeftChild": "v", "item.RightChild": "v"}
+		o.condOf(funcSpec{dir: d, recv: "ComDoc", name: "ListDir", coqName: "listdir_empty", params: "(child : Z)", retType: "bool", leaves: ld}, "if:parent.StorageRoot")
+		o.condOf(funcSpec{dir: d, recv: "ComDoc", name: "ListDir", coqName: "listdir_oob", params: "(index n_files : Z)", retType: "bool", leaves: ld}, "if:index")
+		o.condOf(funcSpec{dir: d, recv: "ComDoc", name: "ListDir", coqName: "listdir_loops", params: "(n n_files : Z)", retType: "bool", leaves: ld}, "if:len(files)")
+		o.condOf(funcSpec{dir: d, recv: "ComDoc", name: "ListDir", coqName: "listdir_has_left", params: "(v : Z)", retType: "bool", leaves: ld}, "if:item.LeftChild")
+		o.condOf(funcSpec{dir: d, recv: "ComDoc", name: "ListDir", coqName: "listdir_has_right", params: "(v : Z)", retType: "bool", leaves: ld}, "if:item.RightChild")
+		for k, nm := range []string{"insert_err0_returned", "insert_err1_returned", "insert_err2_returned"} {
+			callee := "AddFile"
+			nth := k
+			if k == 1 {
+				callee, nth = "DeleteFile", 0
+			} else if k == 2 {
+				nth = 1
+			}
+			o.c18ErrReturned(a, "", "InsertMSISignature", callee, nth, nm)
+		}
 		for _, fn := range []string{"makeFreeSectors", "addStream", "writeShortSector", "writeShortSAT", "writeDirStream", "rebuildTree", "allocSectorTables",
 			"writeSAT", "writeMSAT", "Close", "AddFile", "DeleteFile", "newDirEnt", "appendDirEnt", "readMSAT", "readSAT", "readShortSAT", "readDir", "ListDir"} {
 			fingerprint(d, "ComDoc", fn)
